@@ -365,7 +365,18 @@ impl Check for C05 {
                     .map(|(n, t)| (match n.strip_suffix("_new") { Some(b) if keep.iter().any(|k| k == b) => b.to_string(), _ => n.clone() }, unprime(t)))
                     .collect(),
             };
-            split = Some((old_env, new_env, unprime(&prime(&t1, &names))));
+            // (an edit may have introduced a reference to an old definition: then the new
+            // program is not self-contained and the combined environment is used instead)
+            let t2u = unprime(&prime(&t1, &names));
+            let defined: Vec<&String> = new_env.defs.iter().map(|d| &d.0).collect();
+            let mut mentioned: Vec<String> = vec![];
+            for (_, t) in &new_env.defs {
+                vars_of(t, &mut mentioned);
+            }
+            vars_of(&t2u, &mut mentioned);
+            if mentioned.iter().all(|n| defined.contains(&n)) {
+                split = Some((old_env, new_env, t2u));
+            }
             (prime(&t1, &names), "primed-copy")
         } else {
             match e.below(6) {
@@ -581,6 +592,21 @@ pub(crate) fn primed_pair(e: &mut Ent, env: &mut Env, sc: &Scope, cfg: &TypeCfg)
     };
     let t2 = prime(&t1, &names);
     (t1, t2)
+}
+
+fn vars_of(t: &Ty, out: &mut Vec<String>) {
+    match t {
+        Ty::Var(n) => out.push(n.clone()),
+        Ty::Opt(x) | Ty::Vec(x) => vars_of(x, out),
+        Ty::Record(fs) | Ty::Variant(fs) => fs.iter().for_each(|f| vars_of(&f.1, out)),
+        Ty::Func { args, rets, .. } => args.iter().chain(rets.iter()).for_each(|x| vars_of(x, out)),
+        Ty::Service(ms) => ms.iter().for_each(|m| vars_of(&m.1, out)),
+        Ty::Class(a, s) => {
+            a.iter().for_each(|x| vars_of(x, out));
+            vars_of(s, out)
+        }
+        Ty::Prim(_) => {}
+    }
 }
 
 fn rename_vars(t: &Ty, f: &dyn Fn(&str) -> String) -> Ty {
